@@ -26,7 +26,9 @@ var confineCmdKinds = []string{"lock-baseimage", "lock-baseimage-nocache", "lbui
 	// a hostile architecture string (configuration `archs:` / --arch): per-architecture working directory, layer tarball, SBOM file
 	"lock-arch", "build-arch"}
 
-var confineHostileArchs = []string{"../../w/canary2/evil", "../../../w/canary2/evil", "../../../../w/canary2/evil", "../evil", "../../evil", "../../../evil", "../../../../evil", "/{T}/w/r/canary/evil", "..", "a/b", "x86_64/../../../../w/canary2/evil"}
+var confineHostileArchs = []string{"../../w/canary2/evil", "../../../w/canary2/evil", "../../../../w/canary2/evil", "../evil", "../../evil", "../../../evil", "../../../../evil", "/{T}/w/r/canary/evil", "..", "a/b", "x86_64/../../../../w/canary2/evil",
+	// unknown but plain names keep working
+	"mips64", "apples"}
 
 func confineGenCmdKind(r *Rng, kind string) confineCase {
 	c := confineCase{Kind: "cmd", Hdr: kind}
@@ -164,7 +166,7 @@ func confineRunCmd(c confineCase) []Step {
 	os.Chdir(old)
 	d := confineDiff(before, t.snapshot(des))
 	if strings.HasSuffix(c.Hdr, "-arch") {
-		// the class of an escape through the architecture string is decided by the driver (arch_paths_within_partial's hypothesis)
+		// F18f is repaired: any outside effect of a command run with a hostile architecture string is a violation
 		st := confineEffectStep("cmd-arch", false, d, fmt.Sprintf("%s%s from a working directory that is none of the given places => %s%s", c.Hdr, confineCmdArgs(c), confineErrClass(cerr), confineErrText(cerr)), []string{"cmd:" + c.Hdr, "cmd-result:" + confineErrClass(cerr)})
 		st.Line = "cf.archeffect\tcmd-arch\t" + hx(confineModelStr(c.Value)) + "\t" + strings.Join(d, ",")
 		return []Step{st}
